@@ -21,6 +21,7 @@ void vrt_set_tid(int t); /* harness threads may choose a small stable id (e.g. w
 
 /* ---- schedule perturbation (effective only when the sync wrappers are linked) ---- */
 void vrt_perturb(uint32_t seed, int permille, int max_usleep); /* permille=0 disables */
+void vrt_perturb_target(int target); /* 0 = all threads, 1 = only the thread that first used the runtime (the application thread), 2 = all others */
 
 /* ---- ledger / fault injection (effective only when the alloc wrappers are linked) ---- */
 typedef struct VrtLedger {
